@@ -32,6 +32,8 @@ def sweep_kernels(db, rep, tier):
         try:
             fn()
             rep.ok('A.idx.bound')
+        except basis.HelperAbsent:
+            n -= 1
         except OutOfBounds as e:
             rep.fail('A.idx.bound', site, e.where or where, 'every index inside the extent of its block', str(e))
         except Thrown as t:
@@ -179,7 +181,7 @@ def run(db, rep, tier):
     rep.notes.append('%d lifecycle paths explored' % data['paths'])
     for k in sorted(data['ops'])[:400]:
         rep.fn(k)
-    ownrules.report(rep, data, ('B.acc', 'B.oob', 'B.inv', 'B.inv.empty'), False, 'B.acc')  # the invariant is the induction hypothesis of the accounting argument
+    ownrules.report(rep, data, ('B.acc', 'B.oob', 'B.inv', 'B.inv.empty', 'B.align'), False, 'B.acc')  # the invariant is the induction hypothesis of the accounting argument
     rep.floor('B.acc', data['paths'], 1000)
     # GSL pairing
     units = ['SUNalg', 'const', 'SQuIDS', 'MatrixExp']
@@ -203,4 +205,4 @@ def run(db, rep, tier):
     sweep_solver(db, rep, tier)
     import fixtures
     fixtures.controls_c15(rep)
-    fixtures.controls_own(rep)
+    fixtures.controls_own(rep, db)
